@@ -284,6 +284,46 @@ def run(res, rng, ctx, prop, n_sc=None):
             if bad:
                 res.violation(f"{prop}:solver_options:{name}:invalid_snapshot", bad, dict(rep, kwargs=str(kw1)))
 
+    # ---- (7) ONE velocity-gradient callable object whose state is changed between two runs (e.g. an interpolator updated in place,
+    #          a flow object switched to another frame): the second run must see the new values at every evaluation
+    for k in range(2 if not thorough else 8):
+        sc = solver.make_scenario(rng, k, nmax=6, regimes=(4, 6), fields=["const"], max_updates=2)
+        rep = solver.scenario_json(sc)
+        A0, f0 = _canonical_inputs(sc)
+        L1 = sc["field"].L0.copy()
+        Qk = __import__("scipy.spatial.transform", fromlist=["Rotation"]).Rotation.random(random_state=int(rng.integers(0, 2**31))).as_matrix()
+        L2 = Qk @ L1 @ Qk.T
+        zero = np.zeros(3)
+
+        class Flow:
+            def __init__(self, L):
+                self.L = np.array(L)
+
+            def __call__(self, t, x):
+                return self.L
+
+        pos = lambda t: zero  # noqa: E731
+        ts = solver.times_of(sc)
+
+        def drive(flow, A, f):
+            m = _mk(sc, A.copy(), f.copy())
+            F = np.eye(3)
+            for a, b in zip(ts[:-1], ts[1:]):
+                F = m.update_orientations(solver.params_of(sc), F, flow, (a, b, pos))
+            return m, F
+
+        shared = Flow(L1)
+        drive(shared, A0, f0)                    # first use of the object
+        shared.L = np.array(L2)                  # its state changes in place
+        m_reused, F_reused = drive(shared, A0, f0)
+        m_fresh, F_fresh = drive(Flow(L2), A0, f0)
+        res.evaluations += 3
+        res.count("callable_object_reused_with_new_state")
+        ok, why = _same(m_reused, m_fresh)
+        if not ok or not np.array_equal(F_reused, F_fresh):
+            res.violation(f"{prop}:callable_reuse:stale_velocity_gradient", "a velocity-gradient callable object whose state was changed between two runs "
+                          f"gives another result than a new callable with the same values: {why}; max|dF| = {np.abs(F_reused - F_fresh).max():.3e}", rep)
+
     # ---- (6) bulk update with several minerals of the same phase and with equal-valued minerals
     for k in range(2 if not thorough else 8):
         sc = solver.make_scenario(rng, k, nmax=8, regimes=(4,), max_updates=3)
